@@ -54,7 +54,20 @@ def main():
             rep = json.load(open(args.replay))
             mod.replay(ctx, rep)
         else:
-            mod.run(ctx)
+            import cover
+            cov = cover.Coverage(prop, repo)
+            cov.start()
+            try:
+                mod.run(ctx)
+            finally:
+                cov.stop()
+                try:
+                    ctx.extra["anchor_line_coverage"] = cov.report(repo)
+                    ctx.extra["anchor_line_coverage_note"] = (
+                        "lines of the property's anchored files executed in THIS process during K/S "
+                        "(code run in child processes - solver members, reference solver - is not counted); informational")
+                except Exception as e:      # never let reporting break a check
+                    ctx.extra["anchor_line_coverage_note"] = "coverage report failed: %r" % (e,)
     except Exception as e:
         traceback.print_exc()
         ctx.infra("check crashed: %r" % (e,))
